@@ -90,7 +90,10 @@ def make_qpu(w, tid, n: int):
             if isinstance(o[4], tuple):
                 raise QPUFault("handed circuit does not compile")
             psi = dual_rail_amplitudes(o, n)
-            items = [(lw.State(y), float(abs(a) ** 2))
+            dt = ctl.get("state_dtype")
+            items = [(lw.State(y if dt is None else
+                               list(np.array(y, dtype=getattr(np, dt)))),
+                      float(abs(a) ** 2))
                      for (_b, y), a in zip(dual_rail_outputs(n), psi, strict=True)]
             # rounding noise is cut *relative to the accepted total*: the
             # reconstructed state is conditional on success, so an absolute
@@ -106,7 +109,18 @@ def make_qpu(w, tid, n: int):
                 items = [(s, p) for s, p in items if p > cut]
                 rng.shuffle(items)
             results[i] = dict(items)
-        return results
+        # the container the device hands back: a fresh list, a tuple, or one
+        # list it keeps and refills on every call
+        cont = ctl.get("container", "list")
+        if cont == "tuple":
+            ret = tuple(results)
+        elif cont == "memo":
+            ret = ctl.setdefault("memo_list", [])
+            ret[:] = results
+        else:
+            ret = results
+        ctl["returned"], ctl["returned_len"] = ret, len(ret)
+        return ret
     return qpu
 
 
@@ -151,6 +165,8 @@ def _tomo_new(w, o):
                                 "rewrite": o.get("rewrite"),
                                 "zeros": o.get("zeros", False),
                                 "order_seed": o.get("order_seed", 0),
+                                "state_dtype": o.get("state_dtype"),
+                                "container": o.get("container", "list"),
                                 "circuit": o["c"], "n": o["n"], "handed": []}
     try:
         qpu = make_qpu(w, o["out"], o["n"])
@@ -181,6 +197,8 @@ def _qpu_profile(w, o):
     m["rewrite"] = o.get("rewrite")
     m["zeros"] = o.get("zeros", False)
     m["order_seed"] = o.get("order_seed", 0)
+    m["state_dtype"] = o.get("state_dtype")
+    m["container"] = o.get("container", "list")
 
 
 @op("tomo_process")
@@ -265,7 +283,10 @@ class Tomographer(Client):
                                          "compress_mode_swaps",
                                          "remove_non_adjacent_bs"]),
                     "zeros": r.random() < 0.3,
-                    "order_seed": r.randrange(1 << 20)}
+                    "order_seed": r.randrange(1 << 20),
+                    "state_dtype": r.choice([None, None, "int64", "uint8",
+                                             "uint16"]),
+                    "container": r.choice(["list", "list", "tuple", "memo"])}
         if k == "rho":
             return {"op": "tomo_rho", "t": tid}
         if k == "reject":
@@ -297,7 +318,10 @@ class Tomographer(Client):
                                      "compress_mode_swaps",
                                      "remove_non_adjacent_bs"]),
                 "zeros": r.random() < 0.3,
-                "order_seed": r.randrange(1 << 20)}
+                "order_seed": r.randrange(1 << 20),
+                "state_dtype": r.choice([None, None, None, "int64", "uint8",
+                                         "uint16"]),
+                "container": r.choice(["list", "list", "tuple", "memo"])}
 
     def base_edit(self, cid):
         """Grow a base circuit: keeps 2n visible modes."""
@@ -453,6 +477,14 @@ class TomoMonitor(Monitor):
         w = self.w
         k = op["op"]
         vs = []
+        if k == "tomo_process" and w.has("tomo", op["t"]):
+            ctl = w.meta["tomo"][op["t"]]
+            if ctl.get("returned") is not None and not ctl.get("last_failed") \
+                    and len(ctl["returned"]) != ctl.get("returned_len"):
+                return [self.v({"kind": "callback_result_mutated"},
+                               f"the sequence the callback returned had "
+                               f"{ctl['returned_len']} results, now "
+                               f"{len(ctl['returned'])}")]
         if k == "tomo_bad_experiment" and out["status"] == "ok":
             return [self.v({"kind": "invalid_experiment_accepted"},
                            "a non-function experiment was assigned without error")]
